@@ -258,10 +258,10 @@ def obligations(tier):
                 "shapes of the SVD initialisation padded with random columns",
                 assumptions=lambda I: [I["n"][0] < I["R"]] + [I["R"] <= nk for nk in I["n"][1:]] + [I["n"][0] <= sprod(I["n"][1:])])
     # ====================================================================== Tucker / HOOI: orthonormal factors, core = projection, shapes (caps 0 and >= 1)
-    def tk_setup(N):
+    def tk_setup(N, dt="float64"):
         def setup(S):
             n, r = dims(N), dims(N, "r")
-            return dict(_S=S, X=S.input("X", n), n=n, r=r, e1=S.input("e_prev1", []), e2=S.input("e_prev2", []))
+            return dict(_S=S, X=S.input("X", n, dt), n=n, r=r, e1=S.input("e_prev1", []), e2=S.input("e_prev2", []))
         return setup
     def tk_pre(N):
         def pre(I):
@@ -295,7 +295,7 @@ def obligations(tier):
         N = len(r["factors"])
         out = [(f"[{r['kind']}] shape of the decomposition ≡ shape of the data", tuple(r["shape"]), tuple(S.shape(I["X"]))),
                (f"[{r['kind']}] ranks ≡ requested ranks", tuple(r["rank"]), tuple(r["want_rank"])),
-               (f"[{r['kind']}] core ≡ projection of the data onto the returned factors", r["core"], SP.multi_mode_dot(S, I["X"], r["factors"], list(range(N)), transpose=True))]
+               (f"[{r['kind']}] core ≡ projection of the data onto the returned factors", r["core"], SP.multi_mode_dot(S, I["X"], r["factors"], list(range(N)), transpose=True))]   # (transpose=True in the spec is the conjugate transpose: seen on the complex instances)
         for k, U in enumerate(r["factors"]):
             out.append((f"[{r['kind']}] factor {k} has orthonormal columns", S.einsum("ia,ib->ab", S.conj(U), U), S.eye(S.shape(U)[1])))
         return out
@@ -303,6 +303,9 @@ def obligations(tier):
         for cap in (0, 1):
             add("_tucker:tucker", f"N={N},{'n_iter_max=0 (svd init)' if cap == 0 else 'after a sweep (cap or break)'}", tk_setup(N), lambda I, cap=cap: run_tucker(I, cap), tucker_post,
                 dict(order=N, cap=cap), "orthonormal factors ∧ core ≡ projection ∧ shapes/ranks", assumptions=tk_pre(N))
+            if N <= 3:
+                add("_tucker:tucker", f"N={N},{'n_iter_max=0 (svd init)' if cap == 0 else 'after a sweep (cap or break)'},complex128", tk_setup(N, "complex128"), lambda I, cap=cap: run_tucker(I, cap), tucker_post,
+                    dict(order=N, cap=cap, dtype="complex128"), "orthonormal factors ∧ core ≡ projection ∧ shapes/ranks", assumptions=tk_pre(N))
     # ---- Tucker with fixed factors given in any order: every returned factor sits at its own mode
     from tensorly.tucker_tensor import TuckerTensor
     def tkf_setup(N):
